@@ -21,7 +21,7 @@ THEOREMS = [
     "iter_refines_slice_partial", "iter_refines_slice_scan",
     "nextBatch_specX", "skipBlocks_spec", "skipFake_spec", "skip_spec", "takeWhile_wf", "new_good_at", "full_spec",
     "iter_refines_slice_all", "iter_refines_slice_full", "specFull_batches", "iter_refines_slice_full_holds",
-    "nonnullable_null_witness", "nullable_cross_block_regression", "replace_whole_bitmap_loses_rows", "char_embedded_nul_witness",
+    "nonnullable_null_witness", "nullable_cross_block_regression", "replace_whole_bitmap_loses_rows", "char_embedded_nul_witness", "interval_subday_regression",
     "rle_eq_not_identity_witness", "cut_concat", "cut_blocks_nonempty", "index_exact", "index_covers",
 ]
 
@@ -30,9 +30,8 @@ KNOWN_REASONS = {
     "null-in-nonnullable": "nonnullable:null-reads-default",
     "char-embedded-nul": "char:embedded-nul-truncates",
     "f64-eq-nonidentical": "rle-dict:f64-eq-collapses-bit-patterns",
-    "interval-subday": "interval:subday-part-dropped",
 }
-UNMODELLED = ("dec", "ts", "tstz", "iv", "vec")
+UNMODELLED = ("dec", "ts", "tstz", "vec")
 
 
 # ------------------------------------------------------------------------------------------------
@@ -96,15 +95,6 @@ def norm_char_nul(req):
                     return "s:" + h[:i]
         return v
     return cut, (lambda v: v)
-
-
-def norm_interval(req):
-    def f(v):
-        if v.startswith("iv:"):
-            t = v.split(":")
-            return "iv:%s:%s:0" % (t[1], t[2])
-        return v
-    return f, (lambda v: v)
 
 
 def norm_f64(req):
@@ -236,8 +226,6 @@ def classify(req, ans, same_as_model):
         norms.append(("null-in-nonnullable", norm_null_default(req)))
     if req["cw"] is not None and any(v.startswith("s:") and "00" in [v[2:][i:i + 2] for i in range(0, len(v) - 2, 2)] for v in req["vals"]):
         norms.append(("char-embedded-nul", norm_char_nul(req)))
-    if req["ty"] == "iv" and any(v.startswith("iv:") and v.split(":")[3] != "0" for v in req["vals"]):
-        norms.append(("interval-subday", norm_interval(req)))
     if req["ty"] == "f64" and req["enc"] in ("rle", "dict"):
         cls = {}
         for v in req["vals"]:
@@ -400,9 +388,9 @@ def run(ck):
         "rule": "distinct request lines whose column has >= 1 row and was cut into >= 2 blocks by the real builder",
         "samples": [r[:300] for r in gen_lines[:3] + corpus[:2]],
         "model_vs_impl": mvi, "impl_vs_oracle": ivo, "model_vs_oracle": mvo,
-        "not_modelled_byte_exact": ["decimal", "interval", "timestamp", "vector"],
+        "not_modelled_byte_exact": ["decimal", "timestamp", "vector"],
         "unproved": ["the RLE / dictionary BLOCK iterators are modelled by logical position (run cursor, never_used validated by the correspondence run only)",
-                     "block round-trips of decimal / interval / timestamp / vector (no byte model)"],
+                     "block round-trips of decimal / timestamp / vector (no byte model)"],
     })
     return ck.finish(level="proof", checker_cmd="translator/gen_consts.py; lake build RlModel.Thm.C06 drv_c06; #print axioms audit",
                      trusted_base=["Lean 4 kernel (axioms: propext, Classical.choice, Quot.sound)",
